@@ -128,6 +128,14 @@ func NewUniverse(r *rand.Rand, d7 bool) *Universe {
 	}
 	for j := 1; j <= nd; j++ {
 		ret := Pick(r, []string{"http://h/d/", "http://h/d/sub/", "http://other/", "http://h/"}) + fmt.Sprintf("r%d.json", j)
+		if j >= 2 && r.IntN(4) == 0 {
+			// the previous document's retrieval URI in another letter case: paths are case-sensitive
+			// (RFC 3986 6.2.2.1), so this is a different document (round 11, C03-11)
+			prev := g.docs[j-1].retrieval
+			if k := strings.LastIndex(prev, "/r"); k >= 0 {
+				ret = prev[:k] + "/R" + prev[k+2:]
+			}
+		}
 		id := ""
 		if r.IntN(3) == 0 {
 			id = Pick(r, []string{fmt.Sprintf("http://canon/c%d.json", j), fmt.Sprintf("c%d.json", j), fmt.Sprintf("../c%d.json", j)})
